@@ -28,6 +28,9 @@ def alignSizeOf (structMeta : String → Option (Nat × Nat)) : RustTy → Optio
   | .glam "Mat4" => some (16, 64)
   | .array t n => (alignSizeOf structMeta t).map fun (p : Nat × Nat) => (p.1, n * roundUp p.1 p.2)
   | .named s => structMeta s
+  -- a runtime-sized array (`#[size(runtime)] Vec<T>`) is written with `max(len, 1)` elements: this is its metadata with
+  -- one element; `runtimeLen` gives the byte length of the enclosing struct for any length
+  | .vec t => (alignSizeOf structMeta t).map fun (p : Nat × Nat) => (p.1, roundUp p.1 p.2)
   | _ => none
 
 /-- offsets of the fields of a derived struct and its size, from the fields' (align, size) -/
@@ -37,6 +40,10 @@ def structLayout (fields : List (Nat × Nat)) : List Nat × Nat × Nat :=
     (acc.1 ++ [off], off + f.2, max acc.2.2 f.1)
   let r := fields.foldl step ([], 0, 1)
   (r.1, roundUp r.2.2 r.2.1, r.2.2)
+
+/-- bytes `StorageBuffer::write` produces for a struct of alignment `align` whose last field, at `lastOff`, is a runtime-sized
+array of element stride `stride` holding `k` elements -/
+def runtimeLen (align lastOff stride k : Nat) : Nat := roundUp align (lastOff + max k 1 * stride)
 
 /-- (alignment, size) encase assigns to a derived struct, by name, from the struct items in scope
 (fuel bounds the nesting depth; the relational form without fuel is `Encase.Meta` in Props/C10Struct) -/
